@@ -30,9 +30,23 @@ from vlib import core, upstream, scenario
 PID = 'C20'
 LEVEL = 'exploration'
 BUDGET_S = {'quick': 40, 'thorough': 560}
-FLOORS = {'quick': {}, 'thorough': {}}
+FLOORS = {'quick': {'histories': 520, 'repeat_pairs_compared': 3900, 'etag_304_checked': 570, 'unjustified_304_checks': 2600,
+                    'rewrites': 900, 'rewrites_neighbour': 260, 'timestamps_forced': 760, 'uncacheable_tiles_checked': 1900,
+                    'histories_tms': 85, 'histories_tiles': 90, 'histories_wmts_kvp': 80, 'histories_wmts_rest': 80,
+                    'histories_kml': 90, 'histories_wmsc': 80,
+                    'uncacheable_tms_single': 360, 'uncacheable_tms_meta': 360, 'uncacheable_wmts_single': 230,
+                    'uncacheable_wmts_meta': 350, 'uncacheable_kml_single': 110, 'uncacheable_kml_meta': 200,
+                    'uncacheable_wmsc_single': 135, 'uncacheable_wmsc_meta': 165},
+          'thorough': {'histories': 8000, 'repeat_pairs_compared': 61000, 'etag_304_checked': 6500, 'unjustified_304_checks': 40000,
+                       'rewrites': 14000, 'rewrites_neighbour': 4200, 'timestamps_forced': 11900, 'uncacheable_tiles_checked': 30000,
+                       'histories_tms': 1300, 'histories_tiles': 1300, 'histories_wmts_kvp': 1300, 'histories_wmts_rest': 1300,
+                       'histories_kml': 1300, 'histories_wmsc': 1300,
+                       'uncacheable_tms_single': 4900, 'uncacheable_tms_meta': 5500, 'uncacheable_wmts_single': 3800,
+                       'uncacheable_wmts_meta': 5700, 'uncacheable_kml_single': 1900, 'uncacheable_kml_meta': 2800,
+                       'uncacheable_wmsc_single': 2300, 'uncacheable_wmsc_meta': 2800}}
 RULE = ("case = one generated configuration (grid srs/origin/tile size, backend file(layout)|sqlite, path single|meta "
-        "2x2|bulk 2x2, source wms|tile with on_error 500 -> '#ff0000' cache:false, content noise|flat(same-size tiles)) "
+        "2x2|bulk 2x2, source wms|tile with on_error 500 -> '#ff0000' cache:false, content noise|flat(same-size tiles), optionally "
+        "link_single_color_images) "
         "and one history of 25-70 requests for one tile through one of tms|tiles|wmts_kvp|wmts_rest|kml|wmsc (URL forms "
         "read from the services' own capabilities): plain repeats, If-None-Match (current, quoted, weak, list, *, "
         "stale from an earlier generation, from the creating response, from an error response, garbage), "
@@ -234,6 +248,8 @@ def gen_spec(rng):
             'content': rng.choice(['noise', 'flat', 'flat']), 'service': rng.choice(SERVICES),
             'grid_names': rng.random() < 0.4, 'meta_buffer': rng.choice([0, 0, 8]) if path == 'meta' else 0,
             'max_tile_age': rng.choice([None, None, 1, 0])}
+    # single-colour tiles stored as symlinks: the backend takes timestamp and size from the link itself (lstat)
+    spec['link_single'] = backend == 'file' and spec['content'] == 'flat' and rng.random() < 0.3
     z = rng.randint(1, spec['levels'] - 1)
     n = 2 ** z
     spec['tile'] = [rng.randrange(n), rng.randrange(n), z]
@@ -323,6 +339,8 @@ def build(spec, d):
         cache['cache'] = {'type': 'sqlite'}
     else:
         cache['cache'] = {'type': 'file', 'directory_layout': spec['layout']}
+        if spec.get('link_single'):
+            cache['link_single_color_images'] = True
     conf['caches']['c'] = cache
     conf['layers'] = [{'name': 'lyr', 'title': 'lyr', 'sources': ['c']}]
     gn = bool(spec['grid_names'])
@@ -477,20 +495,24 @@ def gen_ops(rng, spec):
                                        'ims_equal', 'ims_newer', 'ims_far_future', 'both_stale_newer']), rng.randrange(1000)]
                           for _ in range(rng.randint(1, 3))]}])
             conds(rng.randint(1, 3))
+    if spec.get('link_single'):
+        # a tile linked to an ALREADY EXISTING single-colour file (same colour again): re-create twice, the second time
+        # with the validator the first re-creating response handed out
+        ops.append(['rewrite', {'via': rng.choice(['api', 'raw']), 'epoch': False, 'by': 'get', 'v': rng.randrange(1000),
+                                'touch': 'natural', 'dt': 1}])
+        ops.append(['rewrite', {'via': rng.choice(['api', 'raw']), 'epoch': False, 'by': 'inm_creating', 'v': rng.randrange(1000),
+                                'touch': rng.choice(['natural', 'later']), 'dt': 2}])
+        ops.append(['get'])
     return ops
 
 
 def gen_cases(run):
-    n = run.pick(2400, 36000)
+    n = run.pick(1300, 20000)
     for i in range(n):
         yield {'i': i}
 
 
 # ---- one history ----------------------------------------------------------------------------------------------------------
-
-class Harness(object):
-    pass
-
 
 def run_case(run, case):
     rng = run.rng('case', case['i'])
@@ -540,6 +562,7 @@ class History(object):
         self.last_ref = None
         self.fault = None
         self.last_rewrite = 'none'
+        self.forced = set()     # generations whose timestamp was set by the harness
         self.blocks = 0
         self.log = []
         self.failed = False
@@ -561,7 +584,7 @@ class History(object):
         x, y, z = self.T
         if self.spec['backend'] == 'file':
             try:
-                st = os.stat(self.path)
+                st = os.lstat(self.path)
             except OSError:
                 return None
             return [str(st.st_mtime_ns), st.st_size]
@@ -588,7 +611,7 @@ class History(object):
                 ns = p + dt * 10**9
             else:
                 ns = p - dt * 10**9
-            os.utime(self.path, ns=(ns, ns))
+            os.utime(self.path, ns=(ns, ns), follow_symlinks=False)
         else:
             t = datetime.datetime.strptime(prev[0], '%Y-%m-%d %H:%M:%S')
             if kind == 'later':
@@ -603,6 +626,7 @@ class History(object):
             finally:
                 con.close()
         self.rec.gen += 1          # harness-made rewrite of the tile's metadata: new generation
+        self.forced.add(self.rec.gen)
         self.rec.events.append('touch')
         self.note('touch %s -> %r' % (kind, self.read_meta()))
 
@@ -751,7 +775,8 @@ class History(object):
         E, LM = ref['etag'], ref['lm']
         exact = inm is not None and E is not None and inm == E
         run.judge(self.cls(kind + ('/creating' if creating else '')), True)
-        if exact and not creating:
+        if exact and not creating and (client is None or client['sha'] == ref['sha']):
+            # (if the equal ETag was handed out with other bytes, the 304_content_changed clause below decides)
             run.hit('etag_304_checked')
             if r.code != 304:
                 self.bad({'clause': 'current_etag_not_304', 'header': kind},
@@ -773,7 +798,8 @@ class History(object):
                     why = 'ims_' + how
             if why is None:
                 if creating:
-                    mech = {'clause': 'unjustified_304', 'situation': 'creating', 'service': self.fam, 'meta': self.meta}
+                    mech = {'clause': 'unjustified_304', 'situation': 'creating', 'service': self.fam, 'meta': self.meta,
+                            'linked_single_colour': bool(self.spec.get('link_single'))}
                 else:
                     mech = {'clause': 'unjustified_304', 'situation': 'stored', 'header': kind}
                 self.bad(mech, '304 although no validator sent matches the tile as stored now: sent %r; stored tile has ETag=%r '
@@ -788,9 +814,9 @@ class History(object):
                 if why.startswith('etag'):
                     cm, rm = client.get('meta'), ref.get('meta')
                     self.bad({'clause': '304_content_changed', 'backend': self.spec['backend'],
-                              'same_timestamp': bool(cm and rm and cm[0] == rm[0]),
-                              'same_size': bool(cm and rm and cm[1] == rm[1]),
-                              'timestamp_set_by': 'harness' if 'touch' in self.rec.events[-2:] else 'cache'},
+                              'same_timestamp': (cm[0] == rm[0]) if (cm and rm) else None,
+                              'same_size': (cm[1] == rm[1]) if (cm and rm) else None,
+                              'timestamp_set_by': 'harness' if (ref['gen'] in self.forced or client.get('gen') in self.forced) else 'cache'},
                              '304 for ETag %r that was handed out with other bytes (sha %s, stored meta %r) than the tile now stored '
                              '(sha %s, stored meta %r)' % (inm, client['sha'], cm, ref['sha'], rm))
                 else:
@@ -946,7 +972,7 @@ class History(object):
         if via == 'neighbour' and not self.neigh:
             via = 'api'
         self.blocks += 1
-        self.last_rewrite = '%s/%s/%s/%s' % (via, 'new' if o['epoch'] else 'same', 'get' if o['by'] == 'get' else 'cond', o['touch'])
+        self.last_rewrite = '%s/%s/%s' % (via, 'get' if o['by'] == 'get' else 'cond', o['touch'])
         self.note('REWRITE %r (stored meta before: %r)' % (o, prev))
         if o['epoch']:
             self.state['epoch'] += 1
